@@ -224,7 +224,7 @@ func elementOf(v ssa.Value, l *ir.Loop) bool {
 		case *ssa.Extract:
 			return walk(x.Tuple)
 		case *ssa.IndexAddr:
-			return subj != nil && ir.SeeThrough(x.X) == subj && l.Blocks[x.Block()]
+			return subj != nil && sameExpr(x.X, subj) && l.Blocks[x.Block()]
 		case *ssa.ChangeType:
 			return walk(x.X)
 		case *ssa.MakeInterface:
@@ -240,7 +240,7 @@ func sameIndexAsElement(idx ssa.Value, l *ir.Loop) bool {
 	subj := rangeSubject(l)
 	for b := range l.Blocks {
 		for _, in := range b.Instrs {
-			if ia, ok := in.(*ssa.IndexAddr); ok && subj != nil && ir.SeeThrough(ia.X) == subj && ia.Index == idx {
+			if ia, ok := in.(*ssa.IndexAddr); ok && subj != nil && sameExpr(ia.X, subj) && ia.Index == idx {
 				return true
 			}
 		}
